@@ -57,3 +57,7 @@ Definition expected_route (hasbody : bool) (parse : option bytes) (declared : li
 
 (* what the property quantifies over: lists spelled in lower case *)
 Definition all_lower (l : list bytes) : bool := forallb (fun e => bytes_eqb (lower e) e) l.
+
+(* what must happen to one request of a history: the expectation of the single request to the operation it addresses *)
+Definition expected_req (default : bytes) (registered : list bytes) (q : greq) : option nat * option bytes :=
+  expected_route (gq_hasbody q) (gq_parse q) (gq_declared q) default registered.
